@@ -52,13 +52,6 @@ theorem block_call_row2 (nv N C i : Nat) (hi : 1 ≤ i ∧ i ≤ N) :
   | nil => rfl
   | cons a l ih => simp [ih]
 
-theorem lits_inl (l : List Int) : PyF.lits (l.map Sum.inl) = Except.ok l := by
-  induction l with
-  | nil => rfl
-  | cons a l ih =>
-    simp only [PyF.lits, List.map_cons, List.mapM_cons] at ih ⊢
-    rw [ih]; rfl
-
 theorem gen_positive_int_eq (v : Int) (name : String) :
     positive_int v name = if v < 1 then Except.error Err.valueError else Except.ok () := by
   simp [positive_int]
